@@ -27,7 +27,8 @@ From V Require Import Model.ZMap Model.Quorum Model.Voting Model.VotingRef Model
   Proofs.OrderProofs Proofs.Static Proofs.FirstDesc Proofs.CInvRun Proofs.SameHistory Proofs.Agreement
   Proofs.NoFail Proofs.AgreementU Proofs.FameInv Proofs.FamousSet Proofs.DecidedFlag Proofs.RoundReceived
   Proofs.BlockAgree Proofs.AgreementWitness Proofs.WindowWitness
-  Model.Window Proofs.WindowStable Proofs.GapWindow Proofs.RoundAgreeD Proofs.ShrinkWitness.
+  Model.Window Proofs.WindowStable Proofs.GapWindow Proofs.RoundAgreeD Proofs.ShrinkWitness
+  Model.VotingRefD Proofs.VotingProofsD Proofs.RoundOrder Proofs.CInvRunD Proofs.ViewOk Proofs.ViewOkD Proofs.SameHistoryD Proofs.AgreementD.
 Import ListNotations.
 Open Scope Z_scope.
 
@@ -466,6 +467,101 @@ Example C01_dynamic_fork_violates_bound :
    gap_runb ia (map HInsert ww_all), gap_runb ib (map HInsert ww_all')) = (false, false, false, false) /\
   peersets (hrun ia (map HInsert ws_all)) = peersets (hrun ib (map HInsert ws_all')).
 Proof. vm_compute. split; reflexivity. Qed.
+
+(* FAME AGREEMENT UNDER DYNAMIC MEMBERSHIP (code after fix 05eda0b: the quorum of voting round j is the
+   super-majority of the voters' set, round j - 1).
+   (1) The abstract voting loop is safe for ANY sequence of set sizes: n q = size of the set of round q,
+       [view_okD] = at most n j witnesses in round j, quorum of round j = smd n j = 2 * n (j - 1) / 3 + 1, every
+       round-j witness strongly sees at least that many round-(j-1) witnesses (Proofs/VotingProofsD.v, generated from
+       VotingProofs.v).  With the pre-fix quorum (2 * n j / 3 + 1) this is false: C01_fame_threshold_regression.
+   (2) These hypotheses hold in every state of a node that respects the distance bound (Proofs/ViewOkD.v,
+       SameHistoryD.v over the division invariant cinvD), so: two nodes -- no [no_accept], any selfs, schedules,
+       genesis sets -- that respect the distance bound and whose tables agree on the rounds both have never decide the
+       fame of a witness differently (C01_fame_agreement_dynamic).  Still open: discharging [tables_agree] by induction
+       over the blocks (round-received, frames, blocks with per-round sets). *)
+Theorem C01_fame_agreement_partial_dynamic : forall n st1 st2 x r G v1 v2,
+  (forall j, In j (zrange (r + 1) (last_round st1)) -> round_witnesses st1 j <> None) ->
+  (forall j, In j (zrange (r + 1) (last_round st2)) -> round_witnesses st2 j <> None) ->
+  view_okD n r (vparams_of st1 x) (view_witnesses st1) (last_round st1) ->
+  view_okD n r (vparams_of st2 x) (view_witnesses st2) (last_round st2) ->
+  same_historyD n r (vparams_of st1 x) (view_witnesses st1) (last_round st1)
+                    (vparams_of st2 x) (view_witnesses st2) (last_round st2) G ->
+  fame_of st1 x r = Some (Some v1) -> fame_of st2 x r = Some (Some v2) -> v1 = v2.
+Proof.
+  exact (fun n st1 st2 x r G v1 v2 H1 H2 V1 V2 SH F1 F2 =>
+    decisions_agreeD n r _ _ _ _ _ _ G v1 v2 V1 V2 SH
+      (eq_trans (eq_sym (fame_of_as_view st1 x r H1)) F1)
+      (eq_trans (eq_sym (fame_of_as_view st2 x r H2)) F2)).
+Qed.
+Print Assumptions C01_fame_agreement_partial_dynamic.
+
+Theorem C01_fame_decision_stable_partial_dynamic : forall n st1 st2 x r G v,
+  (forall j, In j (zrange (r + 1) (last_round st1)) -> round_witnesses st1 j <> None) ->
+  (forall j, In j (zrange (r + 1) (last_round st2)) -> round_witnesses st2 j <> None) ->
+  view_okD n r (vparams_of st1 x) (view_witnesses st1) (last_round st1) ->
+  view_okD n r (vparams_of st2 x) (view_witnesses st2) (last_round st2) ->
+  same_historyD n r (vparams_of st1 x) (view_witnesses st1) (last_round st1)
+                    (vparams_of st2 x) (view_witnesses st2) (last_round st2) G ->
+  last_round st1 <= last_round st2 ->
+  (forall j, r + 1 <= j <= last_round st1 -> incl (view_witnesses st1 j) (view_witnesses st2 j)) ->
+  fame_of st1 x r = Some (Some v) -> fame_of st2 x r = Some (Some v).
+Proof.
+  exact (fun n st1 st2 x r G v H1 H2 V1 V2 SH HJ HI F1 =>
+    eq_trans (fame_of_as_view st2 x r H2)
+      (decision_monotoneD n r _ _ _ _ _ _ G v V1 V2 SH HJ HI
+         (eq_trans (eq_sym (fame_of_as_view st1 x r H1)) F1))).
+Qed.
+Print Assumptions C01_fame_decision_stable_partial_dynamic.
+
+Theorem C01_supermajority_forces_unanimity_dynamic : forall n r P W J, view_okD n r P W J ->
+  forall j y v t, r + 2 <= j <= J -> In y (W j) -> 0 < (j - r) mod 4 ->
+  tallyf (VzD P W r (smd n) (j - 1)) (ssset P W j y) = (v, t) -> smd n j <= t ->
+  (forall y', In y' (W j) -> VzD P W r (smd n) j y' = v) /\
+  (forall j' y'', j < j' <= J -> In y'' (W j') -> VzD P W r (smd n) j' y'' = v).
+Proof. exact supermajority_forces_unanimityD. Qed.
+Print Assumptions C01_supermajority_forces_unanimity_dynamic.
+
+(* the view hypotheses hold in every state of a node that respects the distance bound, with the sizes of the sets its
+   own final table gives *)
+Theorem C01_view_ok_dynamic : forall genesis all self_ oracle_ ops x r ex,
+  self_ <> -1 -> ids_determine all -> Forall (hop_ok all) ops ->
+  gap_runb (init_hg self_ genesis oracle_) ops = true ->
+  let st := hrun (init_hg self_ genesis oracle_) ops in
+  failed st = false -> -1 <= r <= last_round st -> get_event st x = Some ex ->
+  view_okD (nD (psat st)) r (vparams_of st x) (view_witnesses st) (last_round st).
+Proof.
+  exact (fun g all s o ops x r ex Hs ID H B F Hr Hx =>
+    view_ok_reachD (psat (hrun (init_hg s g o) ops)) (hrun (init_hg s g o) ops)
+      (proj1 (gap_goodD s g o all ops Hs ID H B F))
+      (rinv_contig _ (proj2 (hrun_rtop s g o ops) F))
+      (fun q _ => psat_some s g o ops q Hs) x r ex Hr Hx).
+Qed.
+Print Assumptions C01_view_ok_dynamic.
+
+Theorem C01_fame_agreement_dynamic :
+  forall all self1 self2 genesis1 genesis2 oracle1 oracle2 ops1 ops2 x r v1 v2,
+  ids_determine all -> self1 <> -1 -> self2 <> -1 ->
+  Forall (hop_ok all) ops1 -> Forall (hop_ok all) ops2 ->
+  gap_runb (init_hg self1 genesis1 oracle1) ops1 = true -> gap_runb (init_hg self2 genesis2 oracle2) ops2 = true ->
+  let st1 := hrun (init_hg self1 genesis1 oracle1) ops1 in
+  let st2 := hrun (init_hg self2 genesis2 oracle2) ops2 in
+  failed st1 = false -> failed st2 = false -> tables_agree st1 st2 -> no_cross_fork st1 st2 ->
+  fame_of st1 x r = Some (Some v1) -> fame_of st2 x r = Some (Some v2) -> v1 = v2.
+Proof. exact (fun all s1 s2 g1 g2 o1 o2 ops1 ops2 x r v1 v2 ID S1 S2 H1 H2 B1 B2 F1 F2 T NF =>
+                gap_fame_agreement all s1 s2 g1 g2 o1 o2 ops1 ops2 ID S1 S2 H1 H2 B1 B2 F1 F2 T NF x r v1 v2). Qed.
+Print Assumptions C01_fame_agreement_dynamic.
+
+Theorem C01_fame_agreement_dynamic_fork_free_universe :
+  forall all self1 self2 genesis1 genesis2 oracle1 oracle2 ops1 ops2 x r v1 v2,
+  ids_determine all -> fork_free all -> self1 <> -1 -> self2 <> -1 ->
+  Forall (hop_ok all) ops1 -> Forall (hop_ok all) ops2 ->
+  gap_runb (init_hg self1 genesis1 oracle1) ops1 = true -> gap_runb (init_hg self2 genesis2 oracle2) ops2 = true ->
+  failed (hrun (init_hg self1 genesis1 oracle1) ops1) = false -> failed (hrun (init_hg self2 genesis2 oracle2) ops2) = false ->
+  tables_agree (hrun (init_hg self1 genesis1 oracle1) ops1) (hrun (init_hg self2 genesis2 oracle2) ops2) ->
+  fame_of (hrun (init_hg self1 genesis1 oracle1) ops1) x r = Some (Some v1) ->
+  fame_of (hrun (init_hg self2 genesis2 oracle2) ops2) x r = Some (Some v2) -> v1 = v2.
+Proof. exact gap_fame_agreement_universe. Qed.
+Print Assumptions C01_fame_agreement_dynamic_fork_free_universe.
 
 (* REGRESSION WITNESS for fix 05eda0b (known finding C01-fame-threshold-after-shrink): A SECOND FORK UNDER
    DYNAMIC MEMBERSHIP, INDEPENDENT OF THE WINDOW, in the code before the fix.  DecideFame decided at a round-j witness
